@@ -28,7 +28,9 @@ def charges(rng, n, kind=None):
 
 def exact_values(rng, shape, dtype):
     if dtype == 'int':
-        return rng.choice(INT_VALS, size=shape).astype(np.int64)
+        # every integer storage type, not only the platform default
+        it = [np.int64, np.int64, np.int32, np.int16, np.int8][int(rng.integers(0, 5))]
+        return rng.choice(INT_VALS, size=shape).astype(it)
     if dtype == 'float':
         return rng.choice(np.array([0, 1, -1, 2, 0.5, -1.5, 3, -2.0]), size=shape).astype(float)
     re = rng.choice(INT_VALS, size=shape).astype(float)
